@@ -13,6 +13,9 @@ checks={
  "C16":dict(text=LVL+"arbitrary single (quick) / pairs of (thorough) public List/Stack operations applied to canonical lists with symbolic values and handles chosen from every element ever returned; the full observation is compared with a ring/LIFO model after every step",
             note="list lengths <=3 and <=1, 11 operation kinds; JSON outside; two known findings (Swap, Item.Remove) are pinned by the existing tests and listed in known_findings.json; trusted: go/ssa, fsx interpreter, z3",
             ref="§5 C16", tech="SSA symbolic execution + SMT, case-split on operation/handle selectors"),
+ "C18":dict(text=LVL+"every sequence of <=3 (quick) / <=4 (thorough) Set operations over the value domain {0,1,2}, ordered and unordered, compared with a reference set after every step; Equal against four kinds of second set",
+            note="the value domain and operation selectors are case-split, so the solver's share is path feasibility only (stated in DESIGN); JSON outside; synchronized-set concurrency is covered by C13; trusted: go/ssa, fsx interpreter and its channel/goroutine model (unordered iteration runs through a goroutine)",
+            ref="§5 C18", tech="SSA symbolic execution, exhaustive case-split of selectors within bounds"),
 }
 NA={}
 m={"version":1,
